@@ -150,10 +150,10 @@ class AbstractSpecification(object):
     def set_sampling_period(self, sampling_period=int(1), unit='s', tolerance=float(0.1)):
         if unit not in ('s', 'ms', 'us', 'ns'):
             raise RTAMTException('Unknown time unit {}: the units are s, ms, us and ns.'.format(unit))
-        if tolerance < 0.0 or tolerance > 1.0:
+        if not (0.0 <= tolerance <= 1.0):
             raise RTAMTException('Tolerance must be in [0,1]')
-        if not sampling_period > 0:
-            raise RTAMTException('The sampling period must be positive')
+        if isinstance(sampling_period, bool) or not (0 < sampling_period < float('inf')):
+            raise RTAMTException('The sampling period must be a positive finite number')
         self.ast.sampling_period = sampling_period
         self.ast.sampling_period_unit = unit
         # operators that were already built (by an earlier update() or reset()) count their bounds
